@@ -76,3 +76,28 @@ Fixpoint q_run (s : qstate) (ops : list qop) : qstate * list pobs :=
   | [] => (s, [])
   | o :: r => let '(s1, ob) := q_step s o in let '(s2, obs) := q_run s1 r in (s2, ob :: obs)
   end.
+
+(* ---- a live iterator kept across other calls: it = iter(parser); next(it) ... feed ... next(it) ----
+   Parser.__iter__ is a generator: each next() tests the queue anew; once it found the queue empty it is finished for good. *)
+Record istate := { i_p : pstate; i_it : option bool }.      (* None: no iterator yet; Some true: live; Some false: finished *)
+Inductive iop := IOp (o : pop) | INew | INext.
+Definition i_step (s : istate) (o : iop) : istate * pobs :=
+  match o with
+  | IOp o' => let '(p', ob) := p_step (i_p s) o' in ({| i_p := p'; i_it := i_it s |}, ob)
+  | INew => ({| i_p := i_p s; i_it := Some true |}, ONone)
+  | INext =>
+      match i_it s with
+      | Some true =>
+          match p_q (i_p s) with
+          | m :: r => ({| i_p := {| p_tok := p_tok (i_p s); p_q := r |}; i_it := Some true |}, OGet (Some m))
+          | [] => ({| i_p := i_p s; i_it := Some false |}, OGet None)
+          end
+      | _ => (s, OGet None)
+      end
+  end.
+Fixpoint i_run (s : istate) (ops : list iop) : istate * list pobs :=
+  match ops with
+  | [] => (s, [])
+  | o :: r => let '(s1, ob) := i_step s o in let '(s2, obs) := i_run s1 r in (s2, ob :: obs)
+  end.
+Definition i_init : istate := {| i_p := p_init; i_it := None |}.
